@@ -331,7 +331,7 @@ class Job:
 
 
 class Emit:
-    __slots__ = ("x", "awaitable", "done", "exc", "t_called", "t_done", "src")
+    __slots__ = ("x", "awaitable", "done", "exc", "t_called", "t_done", "src", "jobs_started")
 
     def __init__(self, x, src):
         self.x = x
@@ -341,6 +341,7 @@ class Emit:
         self.exc = None
         self.t_called = None
         self.t_done = None
+        self.jobs_started = []
 
 
 class World:
@@ -439,6 +440,7 @@ class World:
         e.t_called = self.loop.now
         self.emits.append(e)
         self.log.append(("emit-called", self.loop.now, x))
+        njobs = len(self.jobs)
         try:
             aw = source.emit(x, asynchronous=True, metadata=metadata)
         except Exception as exc:
@@ -449,6 +451,7 @@ class World:
             if run:
                 self.loop.run_ready()
             return e
+        e.jobs_started = self.jobs[njobs:]
         e.awaitable = aw
         if aw is None:
             e.done = True
